@@ -133,7 +133,7 @@ def run_drill_types(case, rec):
         gc.collect()
 
 
-DRILL_OPS = ["update", "update-longer", "add-data", "remove-data", "rename-data", "remove-hole", "new-table", "flag", "copy-log-to-other-hole"]
+DRILL_OPS = ["update", "update-longer", "add-data", "remove-data", "rename-data", "remove-hole", "new-table", "flag", "copy-log-to-other-hole", "add-near-name", "add-same-name-integer", "add-same-name-text"]
 
 
 def run_drill(case, rec):
@@ -161,8 +161,13 @@ def run_drill(case, rec):
             if h.name == skip:
                 continue
             for nm in h.get_data_list():
-                dd = h.get_data(nm)[0]
-                out[(h.name, nm)] = (None if dd.values is None else np.asarray(dd.values, dtype=float).tolist(), str(dd.uid))
+                try:
+                    dd = h.get_data(nm)[0]
+                    out[(h.name, nm)] = (None if dd.values is None else np.asarray(dd.values, dtype=float).tolist(), str(dd.uid))
+                except Exception as exc:  # noqa: BLE001
+                    if not exc_origin(exc)[0]:
+                        raise
+                    out[(h.name, nm)] = (f"<raises {type(exc).__name__}: {str(exc)[:80]}>", "")
         return out
 
     def raw_view(skip_uid):
@@ -191,6 +196,8 @@ def run_drill(case, rec):
             n = [3, 5, 2, 4][i]
             h.add_data({"Au": {"depth": np.arange(n) + 0.5, "values": np.arange(n) + 100.0 * (i + 1)}, "Cu": {"depth": np.arange(n) + 0.5, "values": np.arange(n) + 1000.0 * (i + 1)}}, property_group="assay")
             h.add_data({"Lith": {"from-to": np.c_[np.arange(2.0) + 10 * i, np.arange(2.0) + 10 * i + 0.5], "values": np.arange(2.0) + 7 * i}}, property_group="lith")
+            if i == (t + 1) % 4:  # a log only the neighbour of the target has
+                h.add_data({"Mo": {"depth": np.arange(3.0) + 20.5, "values": np.arange(3.0) + 0.25}}, property_group="moly")
         del h, grp
         ws.close()
         ws = Workspace(path, mode="r+")
@@ -221,6 +228,14 @@ def run_drill(case, rec):
             elif op == "flag":
                 target.get_data("Au")[0].public = False
                 target.visible = False
+            elif op == "add-near-name":
+                # a name that differs from the neighbour's log by a blank (or by case) is another name
+                near = ["Mo ", " Mo", "mo", "MO"][(t + int(case["version"] * 10)) % 4]
+                target.add_data({near: {"depth": np.arange(4.0) + 30.5, "values": np.arange(4.0) - 50.0}}, property_group="near")
+            elif op == "add-same-name-integer":
+                target.add_data({"Mo": {"depth": np.arange(4.0) + 30.5, "values": np.arange(4, dtype="int32") + 7, "type": "integer"}}, property_group="moly")
+            elif op == "add-same-name-text":
+                target.add_data({"Mo": {"depth": np.arange(4.0) + 30.5, "values": np.array(["w", "x", "y", "z"]), "type": "text"}}, property_group="moly")
             elif op == "copy-log-to-other-hole":
                 # a log of this hole is copied onto a neighbour that has a log of the same name: the neighbour's own log stays
                 # what it was (same entity, same values); whatever the copy adds is the copy's
